@@ -609,12 +609,12 @@ def gen_op(rng, w):
             for u in sorted(set(rng.choice(weighted) for _ in range(rng.choice([1, 2, 3, 3])))):
                 script.append((lambda uu: (lambda r, ww: gen_user_op(r, ww, uu, r.choice(["ClaimBoosted", "Claim", "ClaimBoosted", "Enter", "Exit", "Merge", "Compound"]))))(u))
         # ... or by a position changing hands in the new week before the receiver has settled the old one
-        if users_with_pos and rng.random() < 0.45:
+        if users_with_pos and rng.random() < 0.6:
             src = rng.choice(users_with_pos)
             n, v = rng.choice(positions_of(w, src))
             dst = pick_receiver(rng, o, src, cw_after=True)
             kinds = ["Compound", "Compound", "Compound", "Claim", "Enter", "Merge", "Exit"] if cfg["same"] else ["Claim", "Claim", "Enter", "Merge", "Exit", "Compound"]
-            pos = 0 if rng.random() < 0.7 else rng.randint(0, len(script))
+            pos = 0 if rng.random() < 0.85 else rng.randint(0, len(script))
             scen = []
             if rng.random() < 0.5:
                 scen.append(["ClaimBoosted", src])
